@@ -138,7 +138,7 @@ fn main() {
             println!("scen={} runs={} wall={:.2}s ({:.1} us/run/thread) steps/run={:.1} preemptions/run={:.1} distinct_schedules={} found={} notes={:?}",
                 name, out.runs, dt, dt * 1e6 * threads as f64 / out.runs.max(1) as f64, out.steps as f64 / out.runs.max(1) as f64, out.preemptions as f64 / out.runs.max(1) as f64, out.nontrivial.len(), out.found.len(), out.notes);
             for f in out.found.iter().take(3) {
-                let fl = &f.fails[0];
+                let fl = f.fails.iter().find(|x| x.prop == gate).unwrap_or(&f.fails[0]);
                 let t = l3::minimise(def, &f.cfg, &f.trace, &fl.prop, &fl.oracle, 200);
                 println!("run {} FAIL {}:{} {}\n  cfg {:?}\n  decisions {} -> {}, draws {}", f.run_index, fl.prop, fl.oracle, fl.msg, f.cfg, f.trace.decisions.len(), t.decisions.len(), t.draws.len());
             }
